@@ -74,6 +74,12 @@ func (k Keeper) DistributeReward(ctx context.Context) error {
 		return nil
 	}
 
+	// the first block of a chain started from an exported state (initial height > 1)
+	// has no last commit either
+	if len(sdkctx.VoteInfos()) == 0 {
+		return nil
+	}
+
 	pool, err := k.RewardPool.Get(sdkctx)
 	if err != nil {
 		return err
